@@ -47,7 +47,16 @@ params:
       memory: 8
       threads: 1
       length: 16
+  - id: 3
+    argon2id:
+      time: 1
+      memory: 8
+      threads: 1
+      length: 16
 `
+
+// (set 3 carries the same numbers as set 2 under another id: a record is upgradeable exactly when its
+// parameter-set ID differs from the default, whatever the numbers are)
 
 func newVAgent(c *vctx, name string, dflt int, upgrades, polType, polCond, hooksDir string) (*vAgent, error) {
 	a := &vAgent{pws: map[string]bool{}}
